@@ -15,6 +15,7 @@ import (
 	"encoding/json"
 	"fmt"
 	"os"
+	"os/exec"
 	"path/filepath"
 	"sort"
 	"strings"
@@ -567,6 +568,7 @@ func runCheck(env *run.Env, c *check) int {
 	}
 	logf("built executor from %s", env.Repo)
 	var others []otherBuild
+	var skippedBuilds []string
 	builds := c.builds
 	if word32[c.id] {
 		builds = append(append([]string{}, builds...), "arch=386")
@@ -579,12 +581,28 @@ func runCheck(env *run.Env, c *check) int {
 		if err != nil {
 			die("%v", err)
 		}
+		if strings.HasPrefix(tag, "arch=") {
+			// can this machine run the other architecture's binaries at all? (an empty program list is a no-op)
+			empty := filepath.Join(env.Scratch, "empty.prog.ndjson")
+			os.WriteFile(empty, nil, 0o644)
+			if err := env.Exec(b, empty, filepath.Join(env.Scratch, "empty.ev.ndjson"), time.Minute); err != nil {
+				logf("build %s cannot be executed here (%v): the second word size is skipped in this run", tag, err)
+				skippedBuilds = append(skippedBuilds, tag)
+				continue
+			}
+		}
 		others = append(others, otherBuild{tag, b})
 	}
 
 	// (E) bounded models
 	var states, transitions int64
 	var modelNotes []string
+	for _, ob := range others {
+		modelNotes = append(modelNotes, "second executor: "+ob.tag+" (event logs compared with the default build's)")
+	}
+	for _, t := range skippedBuilds {
+		modelNotes = append(modelNotes, "second executor "+t+" NOT run: its binaries cannot be executed on this machine")
+	}
 	for _, m := range c.models {
 		consts := m.quick
 		if thor && m.thorough != nil {
@@ -613,6 +631,11 @@ func runCheck(env *run.Env, c *check) int {
 	// (P) proofs: unbounded safety of small abstract specifications, by TLAPS
 	for _, pm := range c.proofs {
 		t0 := time.Now()
+		if _, lerr := exec.LookPath("tlapm"); lerr != nil {
+			modelNotes = append(modelNotes, pm+": NOT checked in this run (tlapm is not installed here); the TLC models and the trace validation do not depend on it")
+			logf("(P) tlapm not found: %s not checked", pm)
+			continue
+		}
 		nob, err := env.TLAPM(pm, 10*time.Minute)
 		if err != nil {
 			die("(P) %v", err)
